@@ -7,7 +7,7 @@ class Engine:
     LEVEL = "model_checking"
 
     def run(self, ctx):
-        thorough = ctx.tier == "thorough"
+        thorough = (ctx.only.get("tier", ctx.tier) if ctx.only else ctx.tier) == "thorough"
         ctx.rule("G: TLC enumerates from RV32.FieldRange the labelled boundary product {min-a, min-1, min, min+1, "
                  "min+a, -a, -1, 0, 1, a, max-a .. max+a, half-a .. half+a, top-a, top-1, top, top+a, 2top-a, -top} for "
                  "the immediate / displacement of every mnemonic; every riscv / rvc instruction class x every such "
